@@ -22,7 +22,8 @@ def load_merged(arg):
     return [merged[k] for k in sorted(merged)]
 
 mut, seeded, neutral = load(sys.argv[1]), load_merged(sys.argv[2]), load(sys.argv[3])
-old = load_merged(sys.argv[4]) if len(sys.argv) > 4 else []
+old = load_merged(sys.argv[4]) if len(sys.argv) > 4 and sys.argv[4] != "-" else []
+npatch = load(sys.argv[5]) if len(sys.argv) > 5 else []
 print("### 13.1 Catalogue mutants (73) against the checks they are tagged for\n")
 print("| mutant | what it changes | expected | result (signature of the first violation) |\n|---|---|---|---|")
 n_ok = n_all = 0
@@ -76,3 +77,18 @@ if old:
         a = new.get(sid, {}).get("checks", {}).get(tgt, {}).get("exit")
         f = lambda e: "caught" if e == 1 else ("missed" if e == 0 else "exit %s" % e)
         print("| %s | %s | %s |" % (sid, f(b), f(a)))
+
+if npatch:
+    print("\n### 13.5 Behaviour-preserving refactorings written by independent sub-agents (%d) against all checks\n" % len(npatch))
+    print("Each agent was asked for four bold but strictly behaviour-preserving restructurings of one area of the crate (`selftest/neutral_patches/<id>/{patch.diff, meta.json}`); they verified equivalence with their own differential transcripts. Every check must stay silent.\n")
+    print("| refactoring | what was restructured | checks run | alarms |\n|---|---|---|---|")
+    for r in npatch:
+        ch = r.get("checks", {})
+        bad = ["%s exit %d" % (p, c["exit"]) for p, c in ch.items() if c["exit"] != 0]
+        summ = ""
+        try:
+            summ = json.load(open(os.path.join(VERIF, "selftest", "neutral_patches", r["id"], "meta.json"))).get("summary", "")
+        except Exception:
+            pass
+        summ = (summ[:260] + "…") if len(summ) > 260 else summ
+        print("| %s | %s | %d | %s |" % (r["id"], summ.replace("|", "/").replace("\n", " "), len(ch), ", ".join(bad) if bad else "none"))
